@@ -84,11 +84,13 @@ def wired(ip, t, cb, ctx=None):
     m[74:76] = bytes.fromhex(dt.hex_rep)
     probe = Ctx()
     try:
+        # the same broadcast twice (devices repeat their status): two deliveries
+        ip.call_function(proto.cls.find_method("datagram_received"), [proto, bytes(m), ("192.0.2.1", 20002)], {}, probe)
         ip.call_function(proto.cls.find_method("datagram_received"), [proto, bytes(m), ("192.0.2.1", 20002)], {}, probe)
     except PyExc:
         return False
     called = [e[1] for e in probe.ghost.events if e[0] == "callback_object"]
-    return len(probe.ghost.callback_calls) == 1 and called == [cb]
+    return len(probe.ghost.callback_calls) == 2 and called == [cb, cb]
 
 
 def units(tier):
@@ -152,6 +154,33 @@ def units(tier):
             return obs
         u[f"methods_ports{n}"] = Unit(f"methods_ports{n}", PROP, methods, functions=[B + "SwitcherBridge." + m for m in
                                       ("__init__", "start", "stop", "__aenter__", "__aexit__", "is_running")], max_paths=200000)
+
+    # ---- port 0 (the system picks the port): the transport must still be found by stop and by the clean-up of a failed start
+    def ephemeral(ip, ctx):
+        obs = []
+        cb = EnvObj("callback")
+        which = ctx.fork(3)
+        ports = [[0], [20002, 0], [0, 10002]][which]
+        b = ip.instantiate(cls(B + "SwitcherBridge"), [cb, PyList(ports)], {}, ctx)
+        ctx.sockets = []
+        ctx.call_no = 1
+        fail = ctx.fork(len(ports) + 1)
+        ctx.fail_at_bind = fail - 1 if fail else None
+        ctx.ghost.events.clear()
+        base = f"{PROP}/ephemeral_port/ports_{'_'.join(map(str, ports))}/" + ("start_ok" if not fail else f"start_fails_at_{fail - 1}")
+        ob = outcome_of(lambda: ip.call_function(b.cls.find_method("start"), [b], {}, ctx))
+        open_t = [t for t in ctx.sockets if not t.state["closed"]]
+        if fail:
+            obs.append(Obligation(base + "/raises_OSError_and_leaves_nothing_listening", ctx, ob[0] == "exc" and ob[1].cls == "OSError" and not open_t))
+            return obs
+        obs.append(Obligation(base + "/every_configured_port_bound", ctx, ob[0] == "ret" and len(open_t) == len(ports) and b.attrs.get("_is_running") is True))
+        ctx.call_no = 2
+        ob2 = outcome_of(lambda: ip.call_function(b.cls.find_method("stop"), [b], {}, ctx))
+        open_t = [t for t in ctx.sockets if not t.state["closed"]]
+        obs.append(Obligation(base + "/stop_leaves_nothing_listening", ctx, ob2[0] == "ret" and not open_t and b.attrs.get("_is_running") is False,
+                              note=str([t.state["port"] for t in open_t])))
+        return obs
+    u["ephemeral_port"] = Unit("ephemeral_port", PROP, ephemeral, functions=[B + "SwitcherBridge.start", B + "SwitcherBridge.stop"])
 
     # ---- any number of ports: the two port loops proved by induction (one iteration from an arbitrary RI state, symbolic port) ----
     import z3
